@@ -191,7 +191,8 @@ pub fn run_check(check: &dyn Check, tier: Tier) -> i32 {
         modes: BTreeMap::new(),
     });
 
-    let corpus = check.corpus();
+    // VERIF_NO_CORPUS=1: seeded search only (used to measure what the search finds by itself)
+    let corpus = if std::env::var_os("VERIF_NO_CORPUS").is_some() { vec![] } else { check.corpus() };
     let n_corpus = corpus.len() as u64;
     let next = AtomicU64::new(0);
     let stop = AtomicBool::new(false);
